@@ -82,4 +82,21 @@ mod verif_native_channel {
             assert!(channel.recv_probe().unwrap().is_none());
         }
     }
+
+    //@witness core_builder Builder::build source-and-target
+    /// C16: a source address of the other address family must be rejected up front by the builder; today it is
+    /// accepted and Channel::connect then reaches `unreachable!()` (the tracer crashes when tracing starts).
+    #[test]
+    fn w_c16_mixed_address_families_accepted_then_crash() {
+        let target = IpAddr::V4(Ipv4Addr::new(10, 0, 0, 2));
+        let source = IpAddr::V6(Ipv6Addr::LOCALHOST);
+        let built = crate::Builder::new(target).source_addr(Some(source)).build();
+        if built.is_err() {
+            return;   // rejected up front: the property holds
+        }
+        // what Tracer::run does next with this configuration (SourceAddr::validate accepts any local address)
+        let config = ChannelConfig { source_addr: source, target_addr: target, ..ChannelConfig::default() };
+        let crashed = std::panic::catch_unwind(|| Channel::<QuietSocket>::connect(&config).is_ok()).is_err();
+        assert!(!crashed, "the builder accepted source ::1 for target 10.0.0.2 and Channel::connect panicked on it");
+    }
 }
